@@ -434,6 +434,49 @@ def visitor_methods():
     return sorted(n[len("visit_"):] for n in dir(annotations._Visitor) if n.startswith("visit_"))
 
 
+def forwardref_routes():
+    """[(description, re-enters the evaluator, inside `with ctx.add_evaluation(val)`)] for every `return` of the ForwardRef
+    branch of annotations._type_from_runtime (found by its test `is_instance_of_typing_name(val, "ForwardRef")`)."""
+    import inspect, textwrap
+    from pyanalyze import annotations
+    tree = ast.parse(textwrap.dedent(inspect.getsource(annotations._type_from_runtime)))
+    branch = None
+    for n in ast.walk(tree):
+        if isinstance(n, ast.If) and any(isinstance(c, ast.Constant) and c.value == "ForwardRef" for c in ast.walk(n.test)):
+            branch = n
+            break
+    if branch is None:
+        raise ValueError("_type_from_runtime: the ForwardRef branch was not found")
+    RECURSIVE = {"_type_from_runtime", "_eval_forward_ref", "type_from_runtime", "_type_from_value", "_type_from_ast"}
+    out = []
+
+    def walk(stmts, guarded):
+        for st in stmts:
+            if isinstance(st, ast.Return):
+                calls = [c.func.id if isinstance(c.func, ast.Name) else getattr(c.func, "attr", "?") for c in ast.walk(st) if isinstance(c, ast.Call)]
+                rec = any(c in RECURSIVE for c in calls)
+                out.append((",".join(calls) or "value", rec, guarded))
+            elif isinstance(st, (ast.With, ast.AsyncWith)):
+                g = guarded or any(isinstance(c, ast.Call) and getattr(c.func, "attr", None) == "add_evaluation" for it in st.items for c in ast.walk(it.context_expr))
+                walk(st.body, g)
+            elif isinstance(st, ast.If):
+                walk(st.body, guarded)
+                walk(st.orelse, guarded)
+            elif isinstance(st, ast.Try):
+                walk(st.body, guarded)
+                for h in st.handlers:
+                    walk(h.body, guarded)
+                walk(st.orelse, guarded)
+                walk(st.finalbody, guarded)
+            elif isinstance(st, (ast.For, ast.While)):
+                walk(st.body, guarded)
+                walk(st.orelse, guarded)
+    walk(branch.body, False)
+    if not out:
+        raise ValueError("_type_from_runtime: no return in the ForwardRef branch")
+    return out
+
+
 def translate(ctx):
     """Generated/TotalTables.lean: the error-code registry (name, description), the node kinds `annotations._Visitor`
     has a visit_ method for, BaseNodeVisitor.CONTEXT_LINES."""
@@ -457,6 +500,16 @@ def translate(ctx):
     ) % (",\n  ".join("(%s, %s)" % (_lean_str(n), _lean_str(d)) for n, d in codes), ", ".join(_lean_str(m) for m in meths),
          int(node_visitor.BaseNodeVisitor.CONTEXT_LINES))
     lean.write_if_changed(os.path.join(lean.LEAN, "PyaModel", "Generated", "TotalTables.lean"), text)
+    routes = forwardref_routes()
+    rtext = (
+        "/-! Regenerated by harness/props/c12.py `translate` from the live pyanalyze; do not edit. -/\n"
+        "namespace Pya.C12.Gen\n\n"
+        "/-- the `return` paths of the ForwardRef branch of `annotations._type_from_runtime`, in source order:\n"
+        "(what is returned, does it re-enter the evaluator, does it sit inside `with ctx.add_evaluation(val)`) -/\n"
+        "def forwardRefRoutes : List (String × Bool × Bool) := [%s]\n\n"
+        "end Pya.C12.Gen\n"
+    ) % ", ".join("(%s, %s, %s)" % (_lean_str(d), "true" if rec else "false", "true" if guarded else "false") for d, rec, guarded in routes)
+    lean.write_if_changed(os.path.join(lean.LEAN, "PyaModel", "Generated", "TfrRoutes.lean"), rtext)
     from harness.common import values as V
     tb, changed = V.regenerate_class_table()
     if ctx is not None:
@@ -749,7 +802,7 @@ KNOWN_CLASSES = [
     # witnesses stay in corpus/C12.jsonl as regression cases): annotCtorCall 0e3888a, whileOutsideFunction 211255f,
     # classKeywordImplicitAny 3858618, sliceLiteralBounds 97cec89, overloadDetailEllipsis 633bfb7, suggestedTypeOfMetaclass fcd36f7, matchValueNotLiteral 9d3b0d2,
     # constrainedTypeVarBoolability 67ee234, overloadStarArgs 5bac5ce, versionInfoCompareRaises 8c71858, protocolCacheKeyUnhashable 9d530d5,
-    # moduleAnnotationUncaught dd2d4d8, annotatedEmptyArgs 98aa7df, callableParamSpecNotLast c190182, unsupportedAnnotNode 9c1e869.
+    # moduleAnnotationUncaught dd2d4d8, annotatedEmptyArgs 98aa7df, callableParamSpecNotLast c190182, unsupportedAnnotNode 9c1e869, boundsDedupUnhashable 766092b.
     # (class, kinds, signature test, syntactic predicate on (tree, lineno, col, detail, ctx))
     ("userCodeRaises", ("internal_error", "raises"), lambda s, d: _user_frames(d), lambda *a: True),
     ("metaclassAttrRecursion", ("internal_error",), lambda s, d: s[0] == "RecursionError" and "has_attribute" in s[1],
@@ -761,9 +814,13 @@ KNOWN_CLASSES = [
     ("inlineParamSpecRecursion", ("internal_error",), lambda s, d: s[0] == "RecursionError" and "substitute_typevars" in s[1],
      lambda t, ln, col, d, c: any(isinstance(n, ast.Call) and (getattr(n.func, "id", None) == "ParamSpec" or getattr(n.func, "attr", None) == "ParamSpec")
                                   for a in annotation_exprs([t]) for n in ast.walk(a))),
-    ("boundsDedupUnhashable", ("internal_error",), lambda s, d: s == ("TypeError", "typevar.py::resolve_bounds_map") and "unhashable type" in d.get("tail", ""),
-     lambda t, ln, col, d, c: any(isinstance(n, ast.Subscript) and any(isinstance(x, (ast.Dict, ast.List, ast.Set, ast.ListComp, ast.DictComp, ast.SetComp)) for x in ast.walk(n.slice))
-                                  for n in _under(t, ln, col))),
+    ("recursiveTypeVarConstraint", ("internal_error",), lambda s, d: s[0] == "RecursionError" and "make_type_var_value" in s[1],
+     lambda t, ln, col, d, c: any(isinstance(n, ast.Call) and getattr(n.func, "id", getattr(n.func, "attr", None)) == "TypeVar" and
+                                  any(isinstance(a, ast.Constant) and isinstance(a.value, str) for a in list(n.args[1:]) + [k.value for k in n.keywords])
+                                  for n in ast.walk(t))),
+    ("pep695AliasUnhashableArgs", ("internal_error",), lambda s, d: s == ("TypeError", "annotations.py::get_type_alias"),
+     lambda t, ln, col, d, c: any(isinstance(n, ast.TypeAlias) for n in ast.walk(t)) and
+     any(isinstance(n, ast.Subscript) and any(isinstance(x, (ast.List, ast.Dict, ast.Set)) for x in ast.walk(n.slice)) for a in annotation_exprs([t]) for n in ast.walk(a))),
     ("newTypeOfNonClass", ("internal_error",), lambda s, d: s == ("AttributeError", "typeshed.py::_get_info_for_name"), _p_newtype_nonclass),
     ("stringAnnotationPosition", ("bad-col", "bad-line"), lambda s, d: True, _p_string_position),
     ("hugeConstantPower", ("timeout",), lambda s, d: True, _p_huge_power),
@@ -1083,6 +1140,112 @@ def annot_stream(ctx, with_model=True):
                 ctx.sample(dict(case, impl=impl, model=model, old_visitor=m.group(2) if m else None))
         if impl.startswith("EXC"):
             ctx.candidate(case, "annotations._Visitor raised: %s" % impl, cls=None, conforms=False, stream="annot")
+
+
+# =================================================================== runtime-annotation graphs (the recursion guard)
+def gen_rt_graph(rng):
+    """A graph of typing objects: leaves, aliases over older nodes, ForwardRefs (evaluated or not) to any node."""
+    n = rng.choice([2, 3, 3, 4, 5, 6, 7])
+    nodes = []
+    for i in range(n):
+        r = rng.random()
+        if i == 0 or r < 0.25:
+            nodes.append(("l", rng.randrange(3)) if (i > 0 or rng.random() < 0.5) and not (i == 0 and rng.random() < 0.5) else ("f", rng.randrange(n + 1), int(rng.random() < 0.5)))
+        elif r < 0.65:
+            nodes.append(("a", [rng.randrange(i) for _ in range(rng.choice([1, 1, 2]))]))
+        else:
+            nodes.append(("f", rng.randrange(n + 1), int(rng.random() < 0.5)))
+    nodes = [(k, t, ev if t < n else 0) if k == "f" else (k, t) for k, t, *rest in nodes for ev in [rest[0] if rest else 0]]
+    return nodes, rng.randrange(n)
+
+
+_RT_CASE = [0]
+
+
+def rt_objects(nodes):
+    import typing
+    leaf = [int, str, float]
+    objs, frefs = [], []
+    # typing caches List[ForwardRef("x")] globally by the reference's *text*: every case and every node gets its own
+    # spelling, otherwise an alias silently contains the ForwardRef object of an earlier case
+    _RT_CASE[0] += 1
+    tag = "G%d_" % _RT_CASE[0]
+    for i, nd in enumerate(nodes):
+        if nd[0] == "l":
+            objs.append(leaf[nd[1]])
+        elif nd[0] == "a":
+            args = [objs[a] for a in nd[1]]
+            objs.append(typing.List[args[0]] if len(args) == 1 else typing.Dict[args[0], args[1]])
+        else:
+            fr = typing.ForwardRef("(" * i + tag + "N%d" % nd[1] + ")" * i)
+            objs.append(fr)
+            frefs.append((fr, nd))
+    for fr, nd in frefs:
+        if nd[2]:
+            fr.__forward_evaluated__ = True
+            fr.__forward_value__ = objs[nd[1]]
+    return objs, {tag + "N%d" % i: o for i, o in enumerate(objs)}
+
+
+def shape_of(v):
+    from pyanalyze import value as PV
+    if isinstance(v, PV.AnyValue):
+        return "any"
+    if isinstance(v, PV.GenericValue) and v.typ in (list, dict):
+        return "(A %s)" % " ".join(shape_of(a) for a in v.args)
+    if type(v) is PV.TypedValue and v.typ in (int, str, float):
+        return "L%d" % [int, str, float].index(v.typ)
+    return "?%s" % v
+
+
+def rt_sexp(nodes, start):
+    enc = lambda nd: "(l %d)" % nd[1] if nd[0] == "l" else "(a %s)" % " ".join(map(str, nd[1])) if nd[0] == "a" else "(f %d %d)" % (nd[1], nd[2])
+    return "T %d %s" % (start, " ".join(enc(nd) for nd in nodes))
+
+
+def tfr_stream(ctx, with_model=True, cases=None):
+    """Real `type_from_runtime` on generated graphs of typing objects (recursive aliases through ForwardRefs, resolved by
+    typing or not) vs the Lean model `tfr`: same value shape, no exception."""
+    from pyanalyze.annotations import type_from_runtime
+    rng = ctx.rng
+    fixed = [([("f", 1, 1), ("a", [0])], 1), ([("f", 1, 0), ("a", [0])], 1), ([("f", 1, 1), ("a", [0])], 0), ([("f", 2, 1), ("f", 3, 1), ("a", [1]), ("a", [0, 2])], 3),
+             ([("f", 0, 1)], 0), ([("f", 0, 0)], 0), ([("l", 0), ("f", 3, 0), ("a", [0, 1]), ("a", [2, 1])], 3)]
+    if cases is None:
+        cases = fixed + [gen_rt_graph(rng) for _ in range(ctx.n(400, 5000))]
+    done = []
+    old_limit = sys.getrecursionlimit()
+    for nodes, start in cases:
+        try:
+            objs, ns = rt_objects(nodes)
+        except Exception as e:
+            ctx.tag("tfr_unbuildable")
+            continue
+        sys.setrecursionlimit(600)       # a RecursionError is the failure looked for: reach it quickly
+        try:
+            with contextlib.redirect_stderr(io.StringIO()):
+                impl = shape_of(type_from_runtime(objs[start], globals=ns))
+        except RecursionError:
+            impl = "EXC:RecursionError"
+        except Exception as e:
+            impl = "EXC:%s" % type(e).__name__
+        finally:
+            sys.setrecursionlimit(old_limit)
+        done.append((nodes, start, impl))
+    outs = lean.run_driver("C12", [rt_sexp(n_, s_) for n_, s_, _ in done]) if with_model and done else [None] * len(done)
+    for (nodes, start, impl), mo in zip(done, outs):
+        cyc = any(nd[0] == "f" for nd in nodes)
+        ctx.count(1, tfr=1, **{"tfr_" + ("EXC" if impl.startswith("EXC") else "any" if "any" in impl else "closed"): 1})
+        if cyc:
+            ctx.nontriv(rt_sexp(nodes, start))
+        case = {"stream": "tfr", "nodes": nodes, "start": start, "graph": rt_sexp(nodes, start)}
+        if mo is not None:
+            ctx.corr("tfr")
+            if mo != impl:
+                ctx.disagree("tfr", case, impl, mo)
+            if "any" in impl and not any(isinstance(x, dict) and x.get("stream") == "tfr" for x in ctx.samples):
+                ctx.sample(dict(case, impl=impl, model=mo))
+        if impl.startswith("EXC"):
+            ctx.candidate(case, "type_from_runtime raised on a graph of typing objects: %s" % impl, cls=None, conforms=(mo is None or mo == impl), stream="tfr")
 
 
 # =================================================================== (2) value API
@@ -1520,6 +1683,9 @@ ANCHORS = [
     ("pyanalyze/node_visitor.py", "BaseNodeVisitor._lines"),
     ("pyanalyze/annotations.py", "_Visitor"),
     ("pyanalyze/annotations.py", "_eval_forward_ref"),
+    ("pyanalyze/annotations.py", "_type_from_runtime"),
+    ("pyanalyze/annotations.py", "Context.add_evaluation"),
+    ("pyanalyze/annotations.py", "make_type_var_value"),
     ("pyanalyze/annotations.py", "value_from_ast"),
     ("pyanalyze/value.py", "unite_values"),
     ("pyanalyze/value.py", "flatten_values"),
@@ -1564,6 +1730,7 @@ TRUSTED = [
 
 def run(ctx):
     annot_stream(ctx)
+    tfr_stream(ctx)
     emit_unit_stream(ctx)
     value_stream(ctx)
     prog_stream(ctx)
@@ -1571,6 +1738,7 @@ def run(ctx):
 
 def run_impl_only(ctx):
     annot_stream(ctx, with_model=False)
+    tfr_stream(ctx, with_model=False)
     emit_unit_stream(ctx, with_model=False)
     value_stream(ctx, with_model=False)
     prog_stream(ctx, with_model=False)
@@ -1620,6 +1788,8 @@ def replay(ctx, data):
         model = lean.run_driver("C12", ["A " + aexpr_sexp(body, ns)])[0]
         print(json.dumps({"annotation": case["annotation"], "implementation": impl, "model": model}, indent=1))
         return 0 if model.startswith("res=%s " % impl) else 1
+    elif stream == "tfr":
+        tfr_stream(ctx, cases=[([tuple(nd) if nd[0] != "a" else ("a", list(nd[1])) for nd in case["nodes"]], case["start"])])
     elif stream == "emit":
         lines, off = case["lines"], case["off"]
         calls = [dict(c, node=None if c["node"] is None else _Node(*c["node"])) for c in case["calls"]]
